@@ -106,23 +106,26 @@ fn replay_history(c: &Value, r: &mut Rep) {
 }
 
 pub fn replay(args: &[String]) {
-    let cases = read_lines(&args[0]);
     let mut r = Rep { n: 0, bad: vec![], conf: vec![] };
     let mut nontrivial = 0;
-    for c in &cases {
+    let mut ncases = 0usize;
+    let mut sample: Option<Value> = None;
+    for_each_line(&args[0], |c| {
+        ncases += 1;
         if c.get("ops").map_or(false, |o| o.is_array()) {
-            replay_history(c, &mut r);
+            replay_history(&c, &mut r);
             if c["ops"].as_array().unwrap().len() >= 2 { nontrivial += 1; }
         } else {
-            replay_case(c, &mut r);
+            replay_case(&c, &mut r);
             if c["op"] == "binary" && w(&c["mul"]).len() < w(&c["a"]).len() + w(&c["b"]).len() { nontrivial += 1; }
             if c["op"] == "new" && w(&c["w"]).len() < w(&c["raw"]).len() { nontrivial += 1; }
             if c["op"] == "unary" && w(&c["a"]).len() >= 2 { nontrivial += 1; }
         }
-    }
+        if ncases == 1000 || sample.is_none() { sample = Some(c); }
+    });
     r.conf.truncate(5);
-    println!("{}", json!({"cases": cases.len(), "comparisons": r.n, "nontrivial": nontrivial, "mismatches": r.bad,
-                          "conformance": r.conf, "sample": cases.get(cases.len() / 2)}));
+    println!("{}", json!({"cases": ncases, "comparisons": r.n, "nontrivial": nontrivial, "mismatches": r.bad,
+                          "conformance": r.conf, "sample": sample}));
 }
 
 fn rand_word(rng: &mut StdRng, ng: isize, len: usize) -> Vec<isize> {
